@@ -818,9 +818,17 @@ static int explore(vf::Args const& a)
             .b("request_between_largest_power_of_two_and_non_power_of_two_max", overshoot).emit();
         }
       }
-      if (r.vkind == "explorer-nondeterminism" || r.vkind == "harness-assumption-broken" || r.vkind == "harness-error")
+      if (r.vkind == "explorer-nondeterminism" || r.vkind == "harness-error")
       {
         vf::J("error").s("msg", r.vkind + ": " + r.vdetail).emit();
+        exhaustive = false;
+        break;
+      }
+      if (r.vkind == "harness-assumption-broken")
+      {
+        // two writers of one atomic that are not ordered by happens-before: in these queues that can only happen when a
+        // side touches a node without synchronising with its construction/publication - a verdict about the code (already
+        // emitted above); the history-based key is no longer exact, so this configuration is not explored further
         exhaustive = false;
         break;
       }
